@@ -1118,3 +1118,17 @@ Proof.
   unfold live. destruct (cb_slot c); [split; [discriminate|intros [X _]; discriminate]|].
   rewrite negb_true_iff. split; [auto|tauto].
 Qed.
+
+(* non-vacuity of [quiescent_unfinished]: the quiescent state of c03_later_requests_eventually_start_nonvacuous shows
+   the three cases at once: unit 0 has a request in its handler, unit 1 a notification queued for the slot with every
+   slot taken, unit 2 waits at the barrier for that notification *)
+Example quiescent_unfinished_nonvacuous :
+  exists s, reach ex_cfg s /\ quiescent s = true /\ 0 < cf_K ex_cfg /\
+    map u_st (units s) = [URunning; URunning; UAtBarrier] /\ map t_st (tasks s) = [TRunning; TWaiting; TAtAcquire] /\
+    map is_note (tasks s) = [false; true; false] /\ map t_unit (tasks s) = [0; 1; 2] /\
+    dp s = DBarrierWait 2 /\ nbar s = 1 /\ sem_free s = 0.
+Proof.
+  exists (st_of ex_cfg (tr_call_running ++ [LRelRead; LRelRead; LRelNext; LRelBarrier; LRelAcquire 1; LRelNext; LRelBarrier])).
+  split; [apply reach_st_of; vm_compute; discriminate|]. split; [vm_compute; reflexivity|]. split; [cbn; lia|].
+  repeat split; vm_compute; reflexivity.
+Qed.
